@@ -108,6 +108,7 @@ def _dynamic(node, patch_):
     mem = node.members[i]
     mem.bound = len_name
     mem.size = None
+    mem.greedy = False
     mem.optional = False
     return node
 
@@ -156,6 +157,7 @@ def _static(node, patch_):
     mem = node.members[i]
     mem.bound = None
     mem.size = size
+    mem.greedy = False
     mem.optional = False
     return node
 
